@@ -45,6 +45,7 @@ def run(ck, F, tier):
         "C10-Z4. NOT decided: byte-for-byte equality of outputs with the Rust API for all buffers.")
     ck.rule("H1", "header <-> exports agreement")
     ck.rule("H2", "wrapper wiring")
+    ck.rule("H4", "argument fidelity: each constructor hands the caller's C strings to the parsers unchanged (only lossless/lossy-UTF-8 conversions on the way), so what the parsers reject the constructor rejects")
     ck.rule("H3", "constructors: null on error, no panics on malformed input")
     hdr = os.path.join(REPO, "include", "ldpc_toolbox.h")
     if not os.path.exists(hdr):
@@ -224,6 +225,75 @@ def run(ck, F, tier):
     Audit(ck, F, "H3", "c_api::decoder::Decoder::new", ["alist", "implementation", "puncturing"], reviewed=rev, no_inline=NOI, contracts="NONE", entry_label="Decoder::new").run()
     Audit(ck, F, "H3", "c_api::encoder::Encoder::new", ["alist", "puncturing"], reviewed=dict(rev), no_inline=NOI, contracts="NONE", entry_label="Encoder::new").run()
     pattern_non_empty(ck, F, "H3")
+    argument_fidelity(ck, F, exports)
+
+
+FAITHFUL = re.compile(r"^(std::ffi::CStr::(from_ptr|to_bytes|to_str|to_string_lossy)|std::string::String::from_utf8_lossy|std::string::ToString::to_string|"
+                      r"std::borrow::Cow::<'_, B>::into_owned|std::borrow::ToOwned::to_owned|std::clone::Clone::clone|std::string::String::as_str|"
+                      r"std::ops::Deref::deref|std::convert::AsRef::as_ref|std::convert::Into::into|std::convert::From::from|std::borrow::Borrow::borrow)$")
+
+
+def faithful_source(v, allow_file=False):
+    """v is a chain of faithful conversions applied to a single variable -> (variable name, went through read_to_string)"""
+    via_file = False
+    while True:
+        if not isinstance(v, Poly):
+            return None, via_file
+        a = single_atom(v)
+        if a is None:
+            return None, via_file
+        if a[0] == "v":
+            return a[1], via_file
+        fn = atom_fn(a)
+        args = atom_args(a)
+        if len(args) != 1:
+            return None, via_file
+        if fn == "try" or fn == "std::fs::read_to_string":
+            if not allow_file:
+                return None, via_file
+            via_file = via_file or fn.endswith("read_to_string")
+        elif not FAITHFUL.match(fn):
+            return None, via_file
+        v = args[0]
+
+
+def argument_fidelity(ck, F, exports):
+    inl = lambda p: F.bodies.get(p) if p.startswith("c_api::") else None
+    PARSERS = r"sparse::SparseMatrix::from_alist|core::str::<impl str>::parse|std::str::FromStr::from_str|cli::ber::parse_puncturing_pattern"
+    n = 0
+    for name, b in sorted(exports.items()):
+        cstr = [p["ident"] for p, t in zip(b.params, b.d.get("sig_inputs", [])) if t.replace(" ", "") in ("*consti8", "*conststd::ffi::c_char")]
+        if not cstr:
+            continue
+        n += 1
+        t = Tracer(F, PARSERS, mode="int", inline=inl)
+        env = {}
+        for p in b.params:
+            t.bind(p, var(p["ident"]), env)
+        t.eval(b.value, env)
+        fed = {}
+        bad = []
+        for e in t.events:
+            kind = "alist" if e.callee.endswith("from_alist") else "pattern" if e.callee.endswith("parse_puncturing_pattern") else "implementation"
+            src, via_file = faithful_source(e.args[0], allow_file=(kind == "alist"))
+            if src is None or src not in cstr:
+                bad.append("%s parser is fed %r" % (kind, e.args[0]))
+                continue
+            fed.setdefault(src, []).append(kind)
+            # the only condition under which a parser may be skipped is emptiness of the same faithful string (no puncturing)
+            for g, pol in e.guards:
+                ga = single_atom(g) if isinstance(g, Poly) else None
+                inner = ga
+                if ga is not None and atom_fn(ga) == "not":
+                    inner = single_atom(atom_args(ga)[0])
+                okg = inner is not None and atom_fn(inner) == "core::str::<impl str>::is_empty" and faithful_source(atom_args(inner)[0])[0] == src and kind == "pattern"
+                if not okg:
+                    bad.append("%s parser runs under the condition %r" % (kind, g))
+        missing = [c for c in cstr if c not in fed]
+        ck.inst("H4", "ctor-args:" + name, not bad and not missing and all(len(v) == 1 for v in fed.values()), b.span,
+                "%s: %s%s%s" % (name, ", ".join("%s -> %s parser" % (k, v[0]) for k, v in sorted(fed.items())),
+                                "; " + "; ".join(bad) if bad else "", "; never parsed: %s" % missing if missing else ""))
+    ck.floor("H4", "constructors taking C strings", n, 4)
 
 
 def pattern_non_empty(ck, F, rule):
